@@ -23,17 +23,28 @@ func lookupCases(r *hx.Rand, n int, cf *hx.CoqFile, res *hx.Result) []string {
 	var names []string
 	for i := 0; i < n; i++ {
 		nFlows := r.Range(2, 6)
+		witness := i == 0 // the input of c09_duplicate_asset_uuid_refuted: two assets with ONE uuid, FindByName(second) then Get(uuid)
+		if witness {
+			nFlows = 2
+		}
 		type asset struct{ uuid, name, innerUUID, innerName int }
 		src := make([]asset, nFlows)
 		var defs []any
+		dup := false
 		for p := range src {
 			a := asset{uuid: p, name: r.Intn(len(nameVariants))}
 			if p > 0 && r.Chance(1, 6) {
 				a.uuid = r.Intn(p) // duplicate asset uuid
 			}
+			if witness {
+				a.uuid, a.name = 0, p
+			}
+			if a.uuid != p {
+				dup = true
+			}
 			variant := hx.Pick(r, nameVariants[a.name])
 			a.innerUUID, a.innerName = a.uuid, a.name
-			if r.Chance(1, 2) {
+			if r.Chance(1, 2) && !witness {
 				// legacy export: top level uuid / name are the asset's, metadata carries the definition's own
 				a.innerUUID, a.innerName = r.Intn(nFlows+1), r.Intn(len(nameVariants))
 				defs = append(defs, obj{"uuid": lu(a.uuid), "name": variant, "version": "11.12", "flow_type": "M", "base_language": "eng",
@@ -90,10 +101,17 @@ func lookupCases(r *hx.Rand, n int, cf *hx.CoqFile, res *hx.Result) []string {
 		}
 		var coqOps []string
 		impl := 0
+		if witness {
+			nOps = 1
+			ops = make([]op, 2)
+		}
 		for k := range ops {
 			ops[k] = op{byName: r.Bool(), arg: r.Intn(nFlows + 1)}
 			if ops[k].byName {
 				ops[k].arg = r.Intn(len(nameVariants))
+			}
+			if witness {
+				ops[k] = []op{{byName: true, arg: 1}, {byName: false, arg: 0}}[k]
 			}
 			got := do(ops[k])
 			if k < nOps {
@@ -102,6 +120,19 @@ func lookupCases(r *hx.Rand, n int, cf *hx.CoqFile, res *hx.Result) []string {
 				impl = got
 			}
 		}
+		// the property's own oracle (no model): what the look-up answers after the others' look-ups is what it answers
+		// from a cold cache ("the same result it produces when run alone")
+		fa = definition.NewFlowAssets(source, migrations.DefaultConfig)
+		if cold := do(ops[nOps]); cold != impl {
+			cls := "cache-transparency:lookup-after-lookups"
+			if dup {
+				cls = "cache-transparency:duplicate-asset-uuid" // known: two assets of the source carry one uuid
+			}
+			res.Fail(cls, map[string]any{"case": i, "source": src, "ops": coqOps, "op": coqOp(ops[nOps])},
+				fmt.Sprintf("after the look-ups %v, %s answers the definition at position %d of the source; from a cold cache it answers position %d (0 = error, p+1 = position p)",
+					coqOps, coqOp(ops[nOps]), impl, cold))
+		}
+		res.OracleChecks++
 		var coqSrc []string
 		for p, a := range src {
 			coqSrc = append(coqSrc, fmt.Sprintf("{| FlowCache.a_uuid := %d; FlowCache.a_name := %d; FlowCache.a_def := {| FlowCache.d_uuid := %d; FlowCache.d_name := %d; FlowCache.d_body := %d |} |}",
